@@ -5,6 +5,7 @@ import (
 	"go/ast"
 	"go/token"
 	"go/types"
+	"strings"
 )
 
 func init() {
@@ -28,13 +29,12 @@ func runC07(c *Ctx) {
 	const pkg = "kvstore"
 	info := p.Pkg(pkg).TypesInfo
 	methods := p.Methods(pkg, "Sequence")
-	if len(methods) < 3 {
-		r.Unresolved("seq/anchors", "kvstore.Sequence", fmt.Sprintf("expected Next/Release/update, found %d methods", len(methods)))
+	if p.FuncDecl(pkg, "Sequence", "Next") == nil || p.FuncDecl(pkg, "Sequence", "Release") == nil {
+		r.Unresolved("seq/anchors", "kvstore.Sequence", "expected the operations Next and Release")
 		return
 	}
 	// (6) locks
-	checkGuards(r, p, "lock/guarded-by", []GuardRow{{Pkg: pkg, Type: "Sequence", Mutex: "Mutex", Fields: []string{"next", "reserved"},
-		CH: map[string]LockMode{"update": ModeW}}})
+	checkGuards(r, p, "lock/guarded-by", []GuardRow{{Pkg: pkg, Type: "Sequence", Mutex: "Mutex", Fields: []string{"next", "reserved"}}})
 	checkLockBalance(r, p, "lock/balance", []string{pkg}, nil, func(k string) bool { return hasPrefixAny(k, "kvstore.Sequence.") })
 	// (7) errors
 	checkErrChecked(r, p, "err/checked", errScope{Pkg: pkg, Funcs: methods})
@@ -67,16 +67,12 @@ func runC07(c *Ctx) {
 	}
 	totalSets := 0
 	var encOrders, decOrders []string
+	// byte orders used anywhere in the type's methods
 	for _, fd := range methods {
-		fkey := funcKey(pkg, fd)
-		f := newFuncCFG(p, info, fd.Body, fkey)
-		sets := f.Calls(isStoreSet)
-		totalSets += len(sets)
-		// byte orders used
 		ast.Inspect(fd.Body, func(n ast.Node) bool {
 			if c, ok := n.(*ast.CallExpr); ok {
 				if se, ok := ast.Unparen(c.Fun).(*ast.SelectorExpr); ok {
-					if inner, ok := ast.Unparen(se.X).(*ast.SelectorExpr); ok && exprKey(inner.X) == "binary" {
+					if inner, ok := ast.Unparen(se.X).(*ast.SelectorExpr); ok && rawKey(inner.X) == "binary" {
 						switch se.Sel.Name {
 						case "PutUint64":
 							encOrders = append(encOrders, inner.Sel.Name)
@@ -88,6 +84,54 @@ func runC07(c *Ctx) {
 			}
 			return true
 		})
+	}
+	// The path rules are evaluated on the exported operations with their unexported helpers
+	// expanded in place, so that it does not matter whether the reservation lives in update(),
+	// in a further helper, or directly in Next.
+	for _, fd := range methods {
+		if !fd.Name.IsExported() {
+			continue
+		}
+		fkey := funcKey(pkg, fd)
+		f := newFuncCFG(p, info, fd.Body, fkey)
+		sets := f.Calls(isStoreSet)
+		totalSets += len(sets)
+		setPt := map[*ast.CallExpr]Point{}
+		for _, sc := range sets {
+			setPt[sc], _ = f.PointOf(sc)
+		}
+		// the value encoded into a store write: the PutUint64 that reaches it
+		encoded := func(sc *ast.CallExpr) (ast.Expr, Point, bool) {
+			isPut := func(n ast.Node) bool {
+				c, ok := n.(*ast.CallExpr)
+				if !ok {
+					return false
+				}
+				se, ok := ast.Unparen(c.Fun).(*ast.SelectorExpr)
+				return ok && se.Sel.Name == "PutUint64" && len(c.Args) == 2
+			}
+			var found []Point
+			for _, pp := range f.Find(isPut) {
+				if _, ok := f.reach(Point{pp.B, pp.I + 1}, &searchOpts{AvoidNode: isPut}, func(q Point, atExit bool) bool { return !atExit && f.At(q, setPt[sc]) }); ok || f.At(pp, setPt[sc]) {
+					found = append(found, pp)
+				}
+			}
+			if len(found) != 1 {
+				return nil, Point{}, false
+			}
+			var arg ast.Expr
+			inspectNoLit(f.nodeAt(found[0]), func(n ast.Node) bool {
+				if isPut(n) {
+					arg = n.(*ast.CallExpr).Args[1]
+				}
+				return true
+			})
+			return arg, found[0], arg != nil
+		}
+		successEdges := func(sc *ast.CallExpr) []Edge {
+			s, _ := f.ErrEdgesDeep(sc)
+			return s
+		}
 		// (1) reserved raised only after the store write of the same value succeeded
 		for _, w := range f.Find(assignsField("reserved")) {
 			as, ok := f.nodeAt(w).(*ast.AssignStmt)
@@ -97,54 +141,52 @@ func runC07(c *Ctx) {
 				continue
 			}
 			if len(sets) == 0 {
-				r.Fail("seq/reserve-before-handout", key, f.PosOf(w), "lease bound raised in a function that never writes the store")
+				r.Fail("seq/reserve-before-handout", key, f.PosOf(w), "lease bound raised in an operation that never writes the store")
 				continue
 			}
 			var succ []Edge
 			sameValue := false
+			want := f.KeyAt(as.Rhs[0], w)
 			for _, sc := range sets {
-				s, _ := f.ErrEdges(sc)
-				succ = append(succ, s...)
-				if enc := encodedValueBefore(f, sc); enc != nil && exprKey(enc) == exprKey(as.Rhs[0]) {
+				succ = append(succ, successEdges(sc)...)
+				if enc, ept, ok := encoded(sc); ok && f.KeyAt(enc, ept) == want {
 					sameValue = true
 				}
 			}
 			if wit, ok := f.OnlyThroughEdges(w, succ); !ok {
 				r.Fail("seq/reserve-before-handout", key, f.PosOf(w), "the lease bound is raised on a path that has not passed the success edge of store.Set: numbers can be handed out that a restart will hand out again", wit...)
 			} else if !sameValue {
-				r.Fail("seq/reserve-before-handout", key, f.PosOf(w), "the value assigned to reserved ("+exprKey(as.Rhs[0])+") is not the value encoded into the store write")
+				r.Fail("seq/reserve-before-handout", key, f.PosOf(w), "the value assigned to reserved ("+want+") is not the value encoded into the store write")
 			} else {
 				r.Pass("seq/reserve-before-handout", key, f.PosOf(w), "dominated by the success edge of store.Set of the same value")
 			}
 		}
 		// (3) what is written to the store
 		for _, sc := range sets {
-			pt, _ := f.PointOf(sc)
+			pt := setPt[sc]
 			key := "store write in " + fkey
-			enc := encodedValueBefore(f, sc)
-			if enc == nil {
-				r.Fail("seq/durable-mark-monotone", key, p.posStr(sc.Pos()), "cannot identify the value encoded into the store write (expected PutUint64(buf, v) before store.Set)")
+			if len(sets) > 1 {
+				key = fmt.Sprintf("store write %s in %s", f.KeyAt(sc.Args[0], pt), fkey)
+			}
+			enc, ept, ok := encoded(sc)
+			if !ok {
+				r.Fail("seq/durable-mark-monotone", key, p.posStr(sc.Pos()), "cannot identify the value encoded into the store write (expected exactly one PutUint64(buf, v) reaching store.Set)")
 				continue
 			}
-			k := exprKey(enc)
+			k := f.KeyAt(enc, ept)
+			re, _ := f.Resolve(enc, ept)
 			// case A: loaded mark + interval
-			if def := definingExpr(info, fd.Body, enc); def != nil {
-				if b, ok := ast.Unparen(def).(*ast.BinaryExpr); ok && b.Op == token.ADD {
-					a, c := stripRoot(exprKey(b.X)), stripRoot(exprKey(b.Y))
-					if (a == ".next" && c == ".interval") || (a == ".interval" && c == ".next") {
-						// next must have been (re)loaded from the store or initialised on not-found on every path
-						loads := f.Find(assignsField("next"))
-						if len(loads) == 0 {
-							r.Fail("seq/durable-mark-monotone", key, p.posStr(sc.Pos()), "mark+interval written without loading the mark")
-							continue
-						}
-						if wit, found := f.PathFromEntryAvoiding(pt, assignsField("next"), nil); found {
-							r.Fail("seq/durable-mark-monotone", key, p.posStr(sc.Pos()), "a path reaches the store write without loading the stored mark into next", wit...)
-						} else {
-							r.Pass("seq/durable-mark-monotone", key, p.posStr(sc.Pos()), "writes loaded mark + interval")
-						}
-						continue
+			if b, ok := ast.Unparen(re).(*ast.BinaryExpr); ok && b.Op == token.ADD {
+				a, c := stripRoot(exprKey(b.X)), stripRoot(exprKey(b.Y))
+				if (a == ".next" && c == ".interval") || (a == ".interval" && c == ".next") {
+					// next must have been (re)loaded from the store or initialised on not-found on every
+					// path since the lease was found exhausted
+					if wit, found := f.PathFromEntryAvoiding(pt, assignsField("next"), nil); found {
+						r.Fail("seq/durable-mark-monotone", key, p.posStr(sc.Pos()), "a path reaches the store write without loading the stored mark into next", wit...)
+					} else {
+						r.Pass("seq/durable-mark-monotone", key, p.posStr(sc.Pos()), "writes loaded mark + interval")
 					}
+					continue
 				}
 			}
 			// case B: write-back of next, needs an active lease
@@ -174,8 +216,8 @@ func runC07(c *Ctx) {
 		gets := f.Calls(isStoreGet)
 		for _, w := range f.Find(assignsField("next")) {
 			as, ok := f.nodeAt(w).(*ast.AssignStmt)
-			if !ok || len(gets) == 0 {
-				continue // seq.next++ in Next, handled below
+			if !ok || len(gets) == 0 || as.Tok != token.ASSIGN {
+				continue // seq.next++ / += in Next, handled below
 			}
 			key := "next load in " + fkey
 			if isConstZero(info, as.Rhs[0]) {
@@ -185,11 +227,16 @@ func runC07(c *Ctx) {
 						return false
 					}
 					se, ok := ast.Unparen(c.Fun).(*ast.SelectorExpr)
-					if !ok || se.Sel.Name != "Is" || exprKey(c.Args[1]) != "ErrKeyNotFound" {
+					if !ok || se.Sel.Name != "Is" || !strings.HasSuffix(exprKey(c.Args[1]), "ErrKeyNotFound") {
 						return false
 					}
-					dc := f.ReachingCall(c, c.Args[0])
-					return dc != nil && isStoreGet(dc)
+					cpt, okp := f.PointOf(c)
+					if !okp {
+						return false
+					}
+					src, _ := f.Resolve(c.Args[0], cpt)
+					dc, isCall := ast.Unparen(src).(*ast.CallExpr)
+					return isCall && isStoreGet(dc)
 				})
 				if wit, ok := f.OnlyThroughEdges(w, edges); ok {
 					r.Pass("seq/init-only-on-notfound", key+" (zero)", f.PosOf(w), "counter starts from 0 only when the store reports ErrKeyNotFound")
@@ -198,26 +245,25 @@ func runC07(c *Ctx) {
 				}
 				continue
 			}
-			// loaded value: derived from the bytes returned by store.Get, on its success path
-			src := as.Rhs[0]
-			if def := definingExpr(info, fd.Body, src); def != nil {
-				src = def
-			}
+			// loaded value: decoded from the bytes returned by store.Get
+			src, spt := f.Resolve(as.Rhs[0], w)
 			okSrc := false
 			if c, ok := ast.Unparen(src).(*ast.CallExpr); ok && len(c.Args) == 1 {
-				if dc := definingCall(info, fd.Body, c.Args[0]); dc != nil && isStoreGet(dc) {
-					okSrc = true
+				if from, _ := f.Resolve(c.Args[0], spt); from != nil {
+					if dc, isCall := ast.Unparen(from).(*ast.CallExpr); isCall && isStoreGet(dc) {
+						okSrc = true
+					}
 				}
 			}
 			if okSrc {
 				r.Pass("seq/init-only-on-notfound", key+" (loaded)", f.PosOf(w), "next is decoded from the bytes read from the store")
 			} else {
-				r.Fail("seq/init-only-on-notfound", key+" (loaded)", f.PosOf(w), "next is set from something other than the stored mark")
+				r.Fail("seq/init-only-on-notfound", key+" (loaded)", f.PosOf(w), "next is set from something other than the stored mark ("+exprKey(src)+")")
 			}
 		}
 	}
 	if totalSets < 2 {
-		r.Fail("seq/durable-mark-monotone", "kvstore.Sequence store writes", "-", fmt.Sprintf("expected store writes in update and Release, found %d", totalSets))
+		r.Fail("seq/durable-mark-monotone", "kvstore.Sequence store writes", "-", fmt.Sprintf("expected store writes in Next (reservation) and Release (write-back), found %d", totalSets))
 	}
 	// (5) byte order agreement
 	if len(encOrders) == 0 || len(decOrders) == 0 {
@@ -251,14 +297,14 @@ func runC07(c *Ctx) {
 			edges := f.RelEdges(func(rel Rel) bool {
 				return rel.Op == "<" && stripRoot(rel.L) == ".next" && stripRoot(rel.R) == ".reserved"
 			})
-			for _, uc := range f.Calls(func(c *ast.CallExpr) bool { return selectorCall(info, c, "", "update") }) {
-				s, _ := f.ErrEdges(uc)
+			for _, sc := range f.Calls(isStoreSet) {
+				s, _ := f.ErrEdgesDeep(sc)
 				edges = append(edges, s...)
 			}
 			if wit, ok := f.OnlyThroughEdges(reads[0], edges); ok {
-				r.Pass("seq/next-guard", "kvstore.Sequence.Next", f.PosOf(reads[0]), "a number is handed out only when next<reserved or after a successful update()")
+				r.Pass("seq/next-guard", "kvstore.Sequence.Next", f.PosOf(reads[0]), "a number is handed out only when next<reserved or after a successful reservation (store.Set)")
 			} else {
-				r.Fail("seq/next-guard", "kvstore.Sequence.Next", f.PosOf(reads[0]), "a number can be handed out on a path where neither next<reserved holds nor update() succeeded (boundary guard must be next >= reserved)", wit...)
+				r.Fail("seq/next-guard", "kvstore.Sequence.Next", f.PosOf(reads[0]), "a number can be handed out on a path where neither next<reserved holds nor a reservation succeeded (boundary guard must be next >= reserved)", wit...)
 			}
 			// increment follows on every path
 			if wit, found := f.PathToExitAvoiding(reads[0], func(n ast.Node) bool {
